@@ -178,8 +178,15 @@ impl Prop for Months {
             return judge(&sigbase, &what, in_range, target, r.map(|d| (d, 0, None)), 0, None);
         }
         let ia = c.day as i128 * tl::DAY_NS + c.ns as i128;
-        let d0 = match catch(|| if late { mk_dt_off_late(ia, c.off) } else { mk_dt_off_any(ia, c.off) }) {
-            Ok(d) => d,
+        let mut want_off = Offset::Fixed(c.off);
+        let d0 = match catch(|| if late || c.off == 0 { (if late { mk_dt_off_late(ia, c.off) } else { mk_dt_off_any(ia, c.off) }, false) } else { mk_dt_off_pin(ia, c.off) }) {
+            Ok((d, local)) => {
+                if local {
+                    cx.nt("offset_carried_as_Offset::Local");
+                    want_off = Offset::Local;
+                }
+                d
+            }
             Err(p) => return fail("c05.harness_build", "receiver builds", p.short()),
         };
         let r = catch(|| {
@@ -205,7 +212,7 @@ impl Prop for Months {
                     if ns != c.ns {
                         return fail(&format!("{}.time_of_day_changed", sigbase), format!("{} keeps time of day {}", what, c.ns), format!("{}", ns));
                     }
-                    if off != Some(Offset::Fixed(c.off)) {
+                    if off != Some(want_off) {
                         return fail(&format!("{}.offset_changed", sigbase), format!("{} keeps offset {}", what, c.off), format!("{:?}", off));
                     }
                     Verdict::Pass
